@@ -878,3 +878,97 @@ Proof.
   induction 1 as [nl nc nh nw|s lb s' R IH H]; [apply live_init|].
   destruct IH as [LA LB]. split; [eapply liveA_step; eauto|eapply liveB_step; eauto using safe_reachable].
 Qed.
+
+(** ** [no_hang] *)
+Lemma forallb_intro {A} (f : A -> bool) l : (forall i x, nth_error l i = Some x -> f x = true) -> forallb f l = true.
+Proof. intros H. apply forallb_forall. intros x Hin. apply In_nth_error in Hin as [i N]. eauto. Qed.
+Lemma existsb_none {A} (f : A -> bool) l : (forall i x, nth_error l i = Some x -> f x = false) -> existsb f l = false.
+Proof.
+  intros H. destruct (existsb f l) eqn:E; auto. apply existsb_exists in E as [x [Hin Fx]].
+  apply In_nth_error in Hin as [i N]. rewrite (H _ _ N) in Fx. discriminate.
+Qed.
+Lemma sumZ_zero {A} (f : A -> Z) l : (forall i x, nth_error l i = Some x -> f x = 0%Z) -> sumZ (map f l) = 0%Z.
+Proof.
+  induction l as [|a l IH]; cbn [map sumZ]; intros H; [reflexivity|].
+  rewrite (H 0 a eq_refl), IH; [reflexivity|]. intros i x N. apply (H (S i) x N).
+Qed.
+
+Lemma no_hang s : reachable repaired s -> requested s = true -> quiescent repaired s -> completed s = true.
+Proof.
+  intros R GS Q. unfold requested in GS.
+  pose proof (safe_reachable _ R) as S. destruct (live_reachable _ R) as [LA LB].
+  (* 1: every caller has returned *)
+  assert (Hcall : forall k p, nth_error (callers s) k = Some p -> p = SDone).
+  { intros k p N. specialize (Q (SStep k) eq_refl). cbn [step] in Q. rewrite N in Q. destruct p; cbn in Q; try discriminate; reflexivity. }
+  (* 2: every connection task has ended *)
+  assert (Hconn : forall c p, nth_error (cs s) c = Some p -> p = CDone).
+  { intros c p N. pose proof (forallb_nth _ _ _ _ (sf_cok _ S) N) as Ok.
+    specialize (Q (CStep c) eq_refl). cbn [step] in Q. rewrite N in Q.
+    destruct p as [| | |r|]; cbn in Q; try discriminate; try reflexivity.
+    destruct (rstep s r); discriminate. }
+  (* 3: a listener has exited or sleeps *)
+  assert (Hlis : forall i l, nth_error (ls s) i = Some l -> l_pc l = LExited \/ l_asleep l = true).
+  { intros i l N. pose proof (Q (LStep i) eq_refl) as Q1. pose proof (Q (LTake i) eq_refl) as Q2.
+    cbn [step] in Q1, Q2. rewrite N in Q1, Q2. unfold step_listener in Q1. unfold step_take in Q2.
+    destruct l as [pc slot woken q]. cbn [l_pc l_slot l_woken l_queue fixA fixC repaired] in *.
+    destruct pc as [| | | | | | | |r|]; try discriminate; auto.
+    - unfold park in Q1; cbn [l_queue] in Q1. destruct q; [discriminate|]. cbn in Q2. discriminate.
+    - right. unfold l_asleep; cbn [l_pc l_woken]. destruct woken; [discriminate|reflexivity].
+    - destruct (rstep s r); discriminate. }
+  assert (Hexit : forall i l, nth_error (ls s) i = Some l -> l_pc l = LExited).
+  { intros i l N. destruct (Hlis _ _ N) as [E|A]; auto. exfalso.
+    pose proof (lv_wake _ LA GS (existsb_nth _ _ _ _ N A)) as W.
+    apply existsb_exists in W as [p [Hin Wp]]. apply In_nth_error in Hin as [k Nk]. rewrite (Hcall _ _ Nk) in Wp. discriminate. }
+  (* 4: the count is 0, nobody is about to complete: completion has started *)
+  assert (Z : gC s = 0%Z).
+  { assert (Z1 : sumZ (map ltok (ls s)) = 0%Z) by (apply sumZ_zero; intros i l N; unfold ltok; rewrite (Hexit _ _ N); reflexivity).
+    assert (Z2 : sumZ (map ctok (cs s)) = 0%Z) by (apply sumZ_zero; intros i p N; rewrite (Hconn _ _ N); reflexivity).
+    rewrite (sf_count _ S), Z1, Z2. reflexivity. }
+  assert (D : gD s = true).
+  { destruct (lv_pend _ LA GS) as [D|[C|P]]; auto; [lia|]. exfalso. unfold pend in P.
+    assert (P1 : existsb s_pend (callers s) = false) by (apply existsb_none; intros k p N; rewrite (Hcall _ _ N); reflexivity).
+    assert (P2 : existsb l_hot (ls s) = false) by (apply existsb_none; intros i l N; unfold l_hot; rewrite (Hexit _ _ N); reflexivity).
+    assert (P3 : existsb c_hot (cs s) = false) by (apply existsb_none; intros i p N; rewrite (Hconn _ _ N); reflexivity).
+    rewrite P1, P2, P3 in P. discriminate. }
+  pose proof (lv_D _ LB D) as K.
+  pose proof (Q KStep eq_refl) as QK. cbn [step] in QK. unfold step_comp in QK.
+  (* 5: every hook has acknowledged *)
+  assert (PS : pre_sent s = true).
+  { pose proof (lv_sent _ LB) as B. destruct (comp s); try discriminate; auto; try congruence. }
+  assert (Hhook : forall h p, nth_error (hooks s) h = Some p -> p = HAcked).
+  { intros h p N. specialize (Q (HStep h) eq_refl). cbn [step] in Q. rewrite N in Q. unfold step_hook in Q.
+    rewrite PS in Q. destruct p; try discriminate; reflexivity. }
+  assert (F : comp s = KFinished).
+  { destruct (comp s) eqn:KK; try discriminate; auto; [congruence|]. exfalso.
+    pose proof (lv_want _ LB) as W. rewrite KK in W.
+    pose proof (lv_acks _ LB) as A. pose proof (lv_reg _ LB) as RG. pose proof (count_le h_registered (hooks s)) as CL.
+    rewrite (count_all h_acked) in A; [|apply forallb_intro; intros i x N; rewrite (Hhook _ _ N); reflexivity].
+    destruct (want s <=? received s) eqn:LE; [discriminate|]. destruct (received s <? acks s) eqn:LT; [discriminate|].
+    apply Nat.leb_gt in LE. apply Nat.ltb_ge in LT. lia. }
+  destruct (lv_fin _ LB F) as [Fin _].
+  unfold completed. rewrite Fin. cbn [andb].
+  repeat (apply andb_true_iff; split).
+  - apply forallb_intro. intros i l N. unfold l_exited. rewrite (Hexit _ _ N). reflexivity.
+  - apply forallb_intro. intros i p N. rewrite (Hconn _ _ N). reflexivity.
+  - apply forallb_intro. intros i p N. rewrite (Hhook _ _ N). reflexivity.
+  - apply forallb_intro. intros w b N. specialize (Q (WStep w) eq_refl). cbn [step] in Q. rewrite N, Fin in Q.
+    destruct b; [reflexivity|discriminate].
+Qed.
+
+(** ** [hooks_before_finished]: when the completion signal is sent, at least [want] acknowledgements have
+    been received, [want] being the number of hooks registered when the completion task read the
+    count; if no hook registered later than that, every registered hook has acknowledged. *)
+Lemma hooks_before_finished s :
+  reachable repaired s -> finished s = true ->
+  want s <= count h_acked (hooks s) /\
+  (want s = pre_count s -> forall h p, nth_error (hooks s) h = Some p -> h_registered p = true -> h_acked p = true).
+Proof.
+  intros R F. pose proof (safe_reachable _ R) as S. destruct (live_reachable _ R) as [LA LB].
+  pose proof (sf_fin _ S F) as K. destruct (lv_fin _ LB K) as [_ WR].
+  pose proof (lv_recv _ LB) as RA. pose proof (lv_acks _ LB) as A. pose proof (lv_reg _ LB) as RG.
+  split; [lia|]. intros E h p N Hr.
+  apply (count_eq_all h_acked h_registered (hooks s)); auto.
+  - intros x Hx. destruct x; try discriminate; reflexivity.
+  - lia.
+  - eapply nth_error_In; eauto.
+Qed.
